@@ -144,7 +144,16 @@ static atomic_int matrix_fail;
 #define EXPECT_FAIL(name, expr) do { covered[ncovered++] = name; long _r = (long)(expr); if (_r >= 0) { matrix_fail++; printf("FAIL C14/foreign-call-accepted | %s called from a thread that does not own the module's context returned %ld (role %s)\n", name, _r, role); } } while (0)
 static void evt_noop(m_mod_t *m, const m_queue_t *const q) { (void)m; (void)q; }
 static int vict_events;
-static void evt_victim(m_mod_t *m, const m_queue_t *const q) { (void)m; vict_events += (int)m_queue_len(q); }
+static atomic_int park_in_cb;
+static void evt_victim(m_mod_t *m, const m_queue_t *const q) {
+    (void)m; vict_events += (int)m_queue_len(q);
+    if (park_in_cb) {
+        /* second round of the matrix: the foreign threads call while the owner thread is inside this callback */
+        park_in_cb = 0;
+        pthread_barrier_wait(&bar);
+        pthread_barrier_wait(&bar);
+    }
+}
 
 static void foreign_calls(const char *role, m_mod_t *mine) {
     m_mod_t *v = victim;
@@ -211,6 +220,9 @@ static void *matrix_other_ctx(void *arg) {
     pthread_barrier_wait(&bar);      /* owner has built the victim and is parked */
     foreign_calls("holds-another-context", other_mod);
     pthread_barrier_wait(&bar);
+    pthread_barrier_wait(&bar);      /* owner is now inside a callback of the victim */
+    foreign_calls("holds-another-context/owner-inside-victim-callback", other_mod);
+    pthread_barrier_wait(&bar);
     m_mod_deregister(&other_mod);
     m_ctx_deregister();
     return NULL;
@@ -219,6 +231,9 @@ static void *matrix_no_ctx(void *arg) {
     (void)arg;
     pthread_barrier_wait(&bar);
     foreign_calls("holds-no-context", NULL);
+    pthread_barrier_wait(&bar);
+    pthread_barrier_wait(&bar);
+    foreign_calls("holds-no-context/owner-inside-victim-callback", NULL);
     pthread_barrier_wait(&bar);
     return NULL;
 }
@@ -248,6 +263,16 @@ static void run_matrix(void) {
         /* only the loop-started system message could arrive, and the victim is not subscribed to it */
         matrix_fail++; printf("FAIL C14/foreign-call-had-effect | victim received %d events although every foreign call had to fail\n", vict_events);
     }
+    /* round two: same matrix while this thread is inside the victim's own event callback */
+    vict_events = 0;
+    park_in_cb = 1;
+    m_mod_ps_tell(victim, victim, &payload_token[2], 0);
+    for (int i = 0; i < 50 && park_in_cb; i++) m_ctx_dispatch();
+    if (park_in_cb) { printf("FAIL HARNESS/matrix | the victim's callback never ran\n"); _exit(2); }
+    if (m_mod_state(victim) != M_MOD_RUNNING) { matrix_fail++; printf("FAIL C14/foreign-call-had-effect | victim state is %d after the foreign calls made during its callback\n", m_mod_state(victim)); }
+    if (m_mod_src_len(victim, M_SRC_TYPE_END) != len0) { matrix_fail++; printf("FAIL C14/foreign-call-had-effect | victim source count changed %zd -> %zd (calls made during its callback)\n", len0, m_mod_src_len(victim, M_SRC_TYPE_END)); }
+    for (int i = 0; i < 3; i++) m_ctx_dispatch();
+    if (vict_events != 1) { matrix_fail++; printf("FAIL C14/foreign-call-had-effect | victim received %d events, its own context sent it exactly 1\n", vict_events); }
     m_ctx_quit(0); m_ctx_dispatch();
     pthread_join(a, NULL); pthread_join(b, NULL);
     m_mod_deregister(&victim);
